@@ -43,20 +43,30 @@ func (rep *FuncReport) queryFor(ob *Obligation) string {
 }
 
 // batchScript: the whole function in one incremental script (push/pop per obligation).
-func (rep *FuncReport) batchScript(timeoutMs int) (string, []*Obligation) {
+func (rep *FuncReport) batchScript(timeoutMs int, light bool) (string, []*Obligation) {
 	var b strings.Builder
 	b.WriteString(smtHeader)
 	fmt.Fprintf(&b, "(set-option :timeout %d)\n", timeoutMs)
-	b.WriteString(rep.Preamble)
+	pre := rep.Preamble
+	if light {
+		pre = rep.LightPreamble
+	}
+	b.WriteString(pre)
 	var order []*Obligation
 	for _, it := range rep.items {
 		if it.kind == 0 {
+			if light && heavyText(it.text, rep.RecSyms) {
+				continue // dropping an assumption is sound: it only weakens the hypotheses
+			}
 			b.WriteString(it.text)
 			b.WriteByte('\n')
 			continue
 		}
 		ob := it.ob
-		if ob.Static {
+		if ob.Static || ob.Status == "discharged" {
+			continue
+		}
+		if light && (ob.Kind == "vacuity" || heavyText(ob.Reach+ob.Cond, rep.RecSyms)) {
 			continue
 		}
 		b.WriteString("(push 1)\n")
@@ -131,11 +141,22 @@ func (e *Engine) Solve(rep *FuncReport, scratch string) {
 	base := filepath.Join(scratch, mangle(rep.Func))
 	start := time.Now()
 	// 1. fast path: one incremental z3 script for the whole function
-	script, order := rep.batchScript(min(e.Timeout, 10) * 1000)
+	for _, light := range []bool{true, false} {
+	if light && !rep.hasHeavy() {
+		continue
+	}
+	tmo := min(e.Timeout, 10) * 1000
+	if light {
+		tmo = 2000
+	}
+	script, order := rep.batchScript(tmo, light)
 	if len(order) > 0 {
 		f := base + ".batch.smt2"
+		if light {
+			f = base + ".light.smt2"
+		}
 		os.WriteFile(f, []byte(z3Header+script), 0o644)
-		cctx, cancel := context.WithTimeout(context.Background(), time.Duration(len(order)*min(e.Timeout, 10)+20)*time.Second)
+		cctx, cancel := context.WithTimeout(context.Background(), time.Duration(len(order)*tmo/1000+20)*time.Second)
 		cmd := exec.CommandContext(cctx, "z3-new", "-smt2", f)
 		var out bytes.Buffer
 		cmd.Stdout = &out
@@ -150,6 +171,9 @@ func (e *Engine) Solve(rep *FuncReport, scratch string) {
 				answers = append(answers, l)
 			} else if strings.HasPrefix(l, "(error") {
 				// a malformed script is an engine fault for every obligation after it
+				if light {
+					break // the light script is an optimisation only
+				}
 				rep.Error = "solver rejected the script: " + l
 				os.WriteFile(base+".error.txt", out.Bytes(), 0o644)
 				return
@@ -158,6 +182,9 @@ func (e *Engine) Solve(rep *FuncReport, scratch string) {
 		for i, ob := range order {
 			if i < len(answers) {
 				ob.Backend = "z3-5.1.0 (batch)"
+				if light {
+					ob.Backend = "z3-5.1.0 (batch, quantifier-free hypotheses only)"
+				}
 				switch {
 				case ob.Kind == "vacuity" && answers[i] == "sat":
 					ob.Status = "discharged"
@@ -169,8 +196,9 @@ func (e *Engine) Solve(rep *FuncReport, scratch string) {
 			}
 		}
 		if e.Verbose {
-			fmt.Fprintf(os.Stderr, "  batch %s: %d checks in %.2fs\n", rep.Func, len(order), time.Since(start).Seconds())
+			fmt.Fprintf(os.Stderr, "  batch(light=%v) %s: %d checks in %.2fs\n", light, rep.Func, len(order), time.Since(start).Seconds())
 		}
+	}
 	}
 	// 2. everything not discharged: individual query, raced over the three back ends
 	var wg sync.WaitGroup
@@ -278,3 +306,24 @@ func (rep *FuncReport) valueTerms() string {
 }
 
 func contextBackground() context.Context { return context.Background() }
+
+func heavyText(t string, rec []string) bool {
+	if strings.Contains(t, "(forall ") || strings.Contains(t, "(exists ") || strings.Contains(t, "validColl") {
+		return true
+	}
+	for _, r := range rec {
+		if strings.Contains(t, "("+r+" ") {
+			return true
+		}
+	}
+	return false
+}
+
+func (rep *FuncReport) hasHeavy() bool {
+	for _, it := range rep.items {
+		if it.kind == 0 && heavyText(it.text, rep.RecSyms) {
+			return true
+		}
+	}
+	return false
+}
